@@ -29,7 +29,11 @@ tree, shelf list; unshelve through Unshelver.make_merger().do_merge(), dump,
 shelf list.  All three dumps, accept/reject of the work transform and the
 conflict count are compared with the Lean model.  A second stream drives one
 ShelfManager with random shelve / delete / unshelve / stray-file sequences and
-compares ids, listings and the parsing of shelf file names with `Mgr`.
+compares ids, listings and the parsing of shelf file names with `Mgr`; a third (run first: corpus/C15 + per
+seed) drives a real ShelfManager through >= 12 shelves with interleaved deletes across the 9 -> 10 id
+boundary and checks after every step that a new id is never the id of a live shelf, that every live shelf
+still holds exactly the change shelved under its id (message + stored text read back), that last_shelf()
+is the numerically largest live id and that active_shelves() is numerically sorted.
 git working trees: shelving is refused (ShelvingUnsupported) — checked to leave
 the tree unchanged.
 Oracle (no model): after shelving, every id has the basis value for each
@@ -65,7 +69,8 @@ Mutants this was built against (scratch worktree; all caught by the oracle with
 a concrete input unless noted): shelve_rename restoring names[1]; new_shelf =
 len(active)+1 (id collision after a deletion); shelve_modify_target storing the
 basis target; Shelver._select_hunks without the `selected = not selected`
-inversion; active_shelves unsorted (last_shelf wrong); shelve_deletion with
+inversion; active_shelves unsorted (last_shelf wrong); active_shelves sorting the file NAMES as strings (ids 10.. before
+2..: with ten live shelves id 10 is handed out again and shelf 10 overwritten — oracle, corpus/C15/eleven-shelves.json); shelve_deletion with
 `version = versioned[1]`; _inverse_lines returning the whole working text
 (caught by the stored-tree oracle / model comparison only: the restore itself
 still works); the two fix: commits reverted (a282db7 -> plain VIOLATION "after shelving the tree is not ...
@@ -1399,6 +1404,126 @@ def run_manager(ctx, idx):
     shutil.rmtree(d, ignore_errors=True)
 
 
+def manager_sequences(ctx):
+    """op lists for the long manager stream: corpus first, then per seed >= 12 shelves with interleaved deletes
+    (always crossing the 9 -> 10 boundary with ten or more live shelves)"""
+    import glob
+    import json
+    seqs = []
+    for f in sorted(glob.glob(os.path.join(env.VERIF, "corpus", "C15", "*.json"))):
+        try:
+            c = json.load(open(f))
+        except Exception:  # noqa
+            continue
+        if "mgr_ops" in c:
+            seqs.append(("corpus:" + os.path.basename(f), list(c["mgr_ops"])))
+    rng = random.Random("mgrlong %d" % ctx.seed)
+    for j in range(ctx.pick(1, 6)):
+        ops, live, nxt = [], [], 1
+        while sum(1 for o in ops if o == "n") < 14 + 2 * j:
+            if live and len(live) > 3 and rng.random() < 0.3 and (nxt < 9 or len(live) > 10):
+                k = rng.choice(live[:-1])          # never the newest: ids keep growing
+                live.remove(k)
+                ops.append("d%d" % k)
+            else:
+                ops.append("n")
+                live.append(nxt)
+                nxt += 1
+        # a tail that deletes a low id and shelves again while >= 10 shelves are live
+        ops += ["d%d" % live[0], "n", "n"]
+        seqs.append(("seed:%d:%d" % (ctx.seed, j), ops))
+    return seqs
+
+
+def run_manager_long(ctx, name, ops):
+    """drive one real ShelfManager through `ops` ('n' = shelve a new, distinct change; 'd<k>' = delete shelf k) and
+    check after EVERY step: a new id is not the id of a live shelf, every live shelf still holds exactly the change
+    shelved under its id (message and stored text read back), last_shelf() is the numerically largest live id and
+    active_shelves() is numerically sorted = the ids the harness knows to be live"""
+    from breezy import shelf
+    wt = _probe_tree()
+    d = wt.basedir
+    mgr = wt.get_shelf_manager()
+    held = {}        # id -> (message, text of t stored on that shelf)
+    done = []
+    lines, impls, cases = [], [], []
+
+    def fail(what):
+        ctx.violation(dict(mgr_ops=list(ops), sequence=name, failed_after=list(done)), what)
+
+    for step, op in enumerate(ops):
+        before = sorted(held)
+        if op == "n":
+            text = b"a\nb\nc\nchange of step %d\n" % step
+            msg = "change %d" % step
+            with open(d + "/t", "wb") as f:
+                f.write(text)
+            with wt.lock_tree_write():
+                cr = shelf.ShelfCreator(wt, wt.basis_tree())
+                try:
+                    cr.shelve_all()
+                    sid = mgr.shelve_changes(cr, msg)
+                finally:
+                    cr.finalize()
+            done.append("n->%d" % sid)
+            ctx.count("mgr-long:new")
+            lines.append("mgr %s n" % (",".join(map(str, before)) or "-"))
+            cases.append(dict(mgr_ops=list(ops), sequence=name, step=step))
+            impls.append(str(sid))
+            if sid in held:
+                fail("new_shelf() handed out id %d although shelf %d is live (live: %r): the change shelved there "
+                     "(%r) is overwritten" % (sid, sid, before, held[sid][0]))
+            elif before and sid <= max(before):
+                fail("new shelf id %d does not exceed the live ids %r" % (sid, before))
+            held[sid] = (msg, text)
+        else:
+            k = int(op[1:])
+            try:
+                mgr.delete_shelf(k)
+                done.append("d%d" % k)
+                if k not in held:
+                    fail("delete_shelf(%d) succeeded but no such shelf was live (%r)" % (k, before))
+                held.pop(k, None)
+            except Exception as e:  # noqa
+                done.append("d%d!%s" % (k, type(e).__name__))
+                if k in held:
+                    fail("delete_shelf(%d) failed (%s) although the shelf is live" % (k, type(e).__name__))
+            ctx.count("mgr-long:delete")
+        ctx.case(dict(mgr_long=name, step=step, op=op, live=before))
+        # ---- invariants after every step ---------------------------------------
+        live = sorted(held)
+        act = mgr.active_shelves()
+        if act != live:
+            fail("active_shelves() = %r, expected the live ids in numeric order %r" % (act, live))
+        last = mgr.last_shelf()
+        if last != (max(live) if live else None):
+            fail("last_shelf() = %r, the newest live shelf is %r (live: %r)" % (last, max(live) if live else None, live))
+        for k, (msg, text) in sorted(held.items()):
+            try:
+                got_msg = mgr.get_metadata(k).get(b"message")
+                with wt.lock_tree_write():
+                    u = mgr.get_unshelver(k)
+                    try:
+                        pt = u.transform.get_preview_tree()
+                        got_text = pt.get_file_text("t")
+                    finally:
+                        u.finalize()
+            except Exception as e:  # noqa
+                got_msg, got_text = "E:" + type(e).__name__, None
+            if got_msg != msg or got_text != text:
+                fail("shelf %d no longer holds the change shelved under that id: message %r (expected %r), text %r "
+                     "(expected %r)" % (k, got_msg, msg, got_text and got_text[-24:], text[-24:]))
+                held[k] = (got_msg, got_text)      # report once
+        if len(ctx.violations) > 40:
+            break
+    if ctx.model_available and lines:
+        for c, l, i, m in zip(cases, lines, impls, ctx.model(lines)):
+            ctx.traces += 1
+            if i != m.split(" ")[0]:
+                ctx.mismatch(c, i, m, line=l)
+    shutil.rmtree(d, ignore_errors=True)
+
+
 def run_git(ctx):
     """git working trees refuse shelving; nothing may change"""
     from breezy import workingtree
@@ -1434,6 +1559,8 @@ def run(ctx, nscen=None, cap=None):
     cap = cap or ctx.pick(20, 64)
     seeds = [(ctx.seed, FORMATS[i % len(FORMATS)], i) for i in range(nscen)]
     run_scenarios(ctx, seeds, cap, variant)
+    for name, ops in manager_sequences(ctx):
+        run_manager_long(ctx, name, ops)
     for i in range(ctx.pick(6, 30)):
         run_manager(ctx, i)
     run_git(ctx)
@@ -1444,8 +1571,11 @@ def widen(ctx):
 
 
 def replay(ctx, case):
+    if "mgr_ops" in case:
+        run_manager_long(ctx, case.get("sequence", "replay"), case["mgr_ops"])
+        return dict(case=case, oracle_failures=[v["what"] for v in ctx.violations])
     if "scenario" not in case:
-        return dict(case=case, note="manager / git cases are replayed by re-running the check with the same seed")
+        return dict(case=case, note="short manager / git cases are replayed by re-running the check with the same seed")
     variant = "".join("T" if x else "F" for x in probe_variant())
     sc = build_scenario(tuple(case["scenario"]))
     an = analyse(sc)
